@@ -17,6 +17,15 @@ let () =
         | "i2ulaw" -> c_i2ulaw x | "i2alaw" -> c_i2alaw x
         | _ -> None in
       incr n;
+      (* property oracle: the implementation against the G.711 definition itself *)
+      let spec = match k with
+        | "ulaw2s" -> Some (ulaw_expand x) | "alaw2s" -> Some (alaw_expand x)
+        | "s2ulaw" -> Some (g711_ulaw_of_short x) | "s2alaw" -> Some (g711_alaw_of_short x)
+        | _ -> None in
+      (match spec with
+       | Some v when string_of_int (int_of_z v) <> r ->
+           incr bad; if !bad <= 50 then Printf.printf "MISMATCH %s %s impl=%s definition=%d\n" k a r (int_of_z v)
+       | _ -> ());
       let ms = match m with Some v -> string_of_int (int_of_z v) | None -> "OOB" in
       if ms <> r then begin incr bad; if !bad <= 50 then Printf.printf "MISMATCH %s %s impl=%s model=%s\n" k a r ms end
     | _ -> ()
